@@ -84,5 +84,8 @@ pub fn small_corpus() -> Vec<Gram> {
         Gram::Json(serde_json::json!({"type":"object","properties":{"a":{"type":"integer","minimum":3,"maximum":17},"b":{"type":"string","maxLength":4}},"required":["a"],"additionalProperties":false})),
         Gram::Json(serde_json::json!({"type":"array","items":{"enum":["x","yy",1,true,null]},"minItems":1,"maxItems":3})),
         Gram::Lark("start: \"[\" (A | B)* \"]\"\nA: \"é\"\nB: /[xyz]{2}/\n".into()),
+        // long forced stretches (several forced tokens on a canonical tokenizer)
+        Gram::Lark("start: \"hello world, \" /[0-9]+/ \" items left\"\n".into()),
+        Gram::Json(serde_json::json!({"type":"object","properties":{"status_code":{"type":"integer"},"message_text":{"const":"all good"}},"required":["status_code","message_text"],"additionalProperties":false})),
     ]
 }
